@@ -171,6 +171,13 @@ func (fr *frame) loopTouched(li *loopInfo) (names map[string]bool, all bool) {
 					if i.Op == token.ARROW {
 						names["CR"] = true
 					}
+				case *ssa.Select:
+					for _, ss := range i.States {
+						if ss.Dir == types.SendOnly {
+							names["CL"] = true
+							names["CO$"+sanitize(fc.e.sortOf(ss.Send.Type()))] = true
+						}
+					}
 				case *ssa.Send:
 					names["CL"] = true
 					names["CO$"+sanitize(fc.e.sortOf(i.X.Type()))] = true
